@@ -104,6 +104,9 @@ func sprintfLike(fr *frame, format value, args value) value {
 		if na, ok := fmtArgsNative(fr, as); ok {
 			return fmt.Sprintf(strings.ReplaceAll(f, "%w", "%v"), na...)
 		}
+		if r, ok := sprintfSymbolic(fr, f, as); ok {
+			return r
+		}
 	}
 	if fr.i.p == nil {
 		return "<unformatted>"
@@ -738,4 +741,103 @@ func init() {
 			stubbable[k] = true
 		}
 	}
+}
+
+// sprintfSymbolic handles formats made of plain verbs (%c %s %v %d %%) whose
+// operands are concrete, symbolic runes (for %c) or symbolic-byte strings (for
+// %s / %v): the result is assembled piecewise, so it stays a string of
+// symbolic bytes instead of an abstract string.
+func sprintfSymbolic(fr *frame, f string, as []value) (value, bool) {
+	var out []value
+	emit := func(s string) {
+		for k := 0; k < len(s); k++ {
+			out = append(out, s[k])
+		}
+	}
+	idx := 0
+	for k := 0; k < len(f); k++ {
+		if f[k] != '%' {
+			out = append(out, f[k])
+			continue
+		}
+		k++
+		if k >= len(f) {
+			return nil, false
+		}
+		if f[k] == '%' {
+			out = append(out, byte('%'))
+			continue
+		}
+		if idx >= len(as) {
+			return nil, false
+		}
+		a := as[idx]
+		idx++
+		if x, ok := a.(iface); ok {
+			a = x.v
+		}
+		switch f[k] {
+		case 'c':
+			switch r := a.(type) {
+			case int32:
+				emit(string(r))
+			case *Term:
+				out = append(out, strBytes(runeToString(fr, r))...)
+			default:
+				return nil, false
+			}
+		case 's', 'v':
+			switch x := a.(type) {
+			case string:
+				emit(x)
+			case sstr:
+				out = append(out, x.b...)
+			default:
+				done := false
+				if x, isI := as[idx-1].(iface); isI && x.t != nil {
+					for _, mname := range []string{"Error", "String"} {
+						if m := findMethod(fr.i, x.t, mname); m != nil && m.Signature.Params().Len() == 0 && m.Signature.Results().Len() == 1 {
+							switch r := callSSA(fr.i, fr, token.NoPos, m, []value{x.v}, nil).(type) {
+							case string:
+								emit(r)
+								done = true
+							case sstr:
+								out = append(out, r.b...)
+								done = true
+							}
+							break
+						}
+					}
+				}
+				if !done {
+					n, ok := toNative(fr, as[idx-1], 0)
+					if !ok {
+						return nil, false
+					}
+					emit(fmt.Sprintf("%"+string(f[k]), n))
+				}
+			}
+		case 'd':
+			if t, isTerm := a.(*Term); isTerm && fr.i.p != nil {
+				// a symbolic integer: enumerate its feasible values
+				var st types.Type
+				if x, ok := as[idx-1].(iface); ok {
+					st = x.t
+				}
+				emit(fmt.Sprintf("%d", fr.toInt(t, st)))
+				break
+			}
+			n, ok := toNative(fr, as[idx-1], 0)
+			if !ok {
+				return nil, false
+			}
+			emit(fmt.Sprintf("%d", n))
+		default:
+			return nil, false
+		}
+	}
+	if idx != len(as) {
+		return nil, false
+	}
+	return mkStr(out), true
 }
